@@ -265,6 +265,24 @@ def physical_gate(facts, rep, w, D):
         arg = norm(tr.operand(a))
         alts_ = arg[1] if arg[0] == "phi" else (arg,)
         raw_possible = any(x[0] == "arg" and x[1] == 1 for x in alts_)
+
+        def is_own_arg(x):
+            for _ in range(6):
+                if (x[0] == "arg" and x[1] == 1) or x == ("rec",):
+                    return True   # ("rec",): the argument local re-assigned from itself (`path = &path[1..]`)
+                if x[0] == "call" and x[1] in ("AsRef::as_ref", "Deref::deref", "Borrow::borrow", "String::as_str", "Path::new",
+                                               "Into::into", "From::from", "ToOwned::to_owned", "ToString::to_string") and x[2]:
+                    x = norm(x[2][0])
+                    continue
+                return False
+            return False
+        pure = all(is_own_arg(x) or (x[0] == "call" and x[1] == "Index::index" and len(x[2]) == 2 and is_own_arg(norm(x[2][0])) and
+                                     x[2][1][0] == "agg" and x[2][1][1].endswith("RangeFrom") and dict(x[2][1][3]).get("start") == ("int", 1))
+                   for x in alts_)
+        n += 1
+        rep.ob("R07.2", g.id, "joined string is the path argument itself (at most without its leading '/')", pure,
+               "" if pure else "the translator rewrites the path before joining it onto the root (%s): characters that were plain "
+               "name bytes after normalisation (e.g. '\\') can become separators or '..' components and leave the root" % fmt(arg)[:70], t.line)
         strip_blocks = []
         for blk in g.blocks:
             if blk.cleanup:
